@@ -629,6 +629,14 @@ pub fn scenarios(tier: Tier) -> Vec<Scenario> {
                 ops: vec![SOp::Add { user: 1, disp: 1, blob: Blob::Valid }, SOp::Add { user: 2, disp: 1, blob: Blob::Valid }, SOp::Poll],
             },
             Scenario {
+                // no grace period: the block that ends the subscription removes the user, who registers again at once, while
+                // a submission charged to the old subscription is still on its way to the database
+                name: "triple:expiring-block-add-register".into(),
+                cfg: TowerCfg { slots: 3, duration: 1, grace: 0, txindex: false },
+                seed: vec![Ev::Register(1), Ev::Mine(MineSel::Empty)],
+                ops: vec![SOp::Poll, SOp::Add { user: 1, disp: 1, blob: Blob::Valid }, SOp::Register(1)],
+            },
+            Scenario {
                 name: "triple:renew-add-poll".into(),
                 cfg,
                 seed: vec![Ev::Register(1), mine(vec![TxName::D(1)])],
